@@ -1,6 +1,6 @@
 (* C18 - Masking transform equals RFC 6455 byte-wise XOR for all lengths and keys.
    Only statements, each closed by an existing lemma. *)
-From Gws Require Import Lib.Base Model.Mask Spec.MaskSpec Proofs.MaskProofs Gen.Funcs Proofs.GenFuncsProofs.
+From Gws Require Import Lib.Base Model.Mask Spec.MaskSpec Proofs.MaskProofs Gen.Funcs Proofs.GenMaskProofs.
 Local Open Scope N_scope.
 
 (* the word-unrolled implementation never panics on a 4-byte key and equals the RFC transform,
